@@ -7,7 +7,7 @@ use vlib::fam::{EntrySpec, FileCfg, FileSpec};
 use vlib::report::{par_for, Deadline, Report, Tier};
 
 use crate::common::build_file;
-use crate::cursor_bfs::{bfs_file, replay_history, BfsOptions, Op};
+use crate::cursor_bfs::{bfs_file, BfsOptions, Op};
 
 /// The file list shared by C03 and C16: chosen so that every index level >= 2 has >= 2 blocks.
 pub fn cursor_files(tier: Tier) -> Vec<(String, FileSpec)> {
@@ -132,24 +132,38 @@ pub fn run(tier: Tier) -> i32 {
         }
     });
     acc.merge(a2);
+    // third engine: histories run on ONE cursor object each (never cloned), larger alphabet
+    let depth1 = tier.pick(5usize, 6);
+    let a3 = par_for(enum_files.len(), 1, &deadline, |i, acc| {
+        let (name, spec) = &enum_files[i];
+        if let Ok((entries, bytes)) = build_file(spec) {
+            let (h, o) = crate::cursor_bfs::single_cursor_histories(name, spec, &entries, &bytes, depth1, "C03", acc);
+            acc.count("single_cursor_histories", h);
+            acc.count("single_cursor_history_operations", o);
+            acc.transitions += o;
+            acc.evaluations += o;
+        }
+    });
+    acc.merge(a3);
     rep.acc = acc;
     let closed_all = rep.acc.counters.get("files_not_closed").copied().unwrap_or(0) == 0;
     rep.set("exhaustive", json!(closed_all));
     rep.set("files", json!(names));
     rep.set(
         "rule",
-        json!("E1 closure: per file, BFS over all reachable (model position, cursor fingerprint) states under the alphabet {first,last,next,prev,reset} + {GE,LE,EQ} x probes (every stored key, key minus last byte, key-1, key++00, key++FF, '', 00, FFFFFFFF); every transition runs on a clone of the real cursor and is compared with the sorted-vector model; a second engine enumerates ALL histories of length <= d (6 quick, 7 thorough) over a 11-13 symbol alphabet on six files with NO state deduplication (sound even for a change that adds cursor state the fingerprint cannot see); distinct_nontrivial = files with >= 2 blocks at some non-root index level"),
+        json!("E1 closure: per file, BFS over all reachable (model position, cursor fingerprint) states under the alphabet {first,last,next,prev,reset} + {GE,LE,EQ} x probes (every stored key, key minus last byte, key-1, key++00, key++FF, '', 00, FFFFFFFF); every transition runs on a clone of the real cursor and is compared with the sorted-vector model; a second engine enumerates ALL histories of length <= d (6 quick, 7 thorough) over a 7-11 symbol alphabet (5 moves + GE/LE at up to three positions) on six files with NO state deduplication (sound even for a change that adds cursor state the fingerprint cannot see); a third engine runs every history of length d1 (5 quick, 6 thorough) over that alphabet plus EQ and two seeks that find nothing on ONE cursor object per history, never cloned (the first two engines run every step on a clone of the previous state's cursor); distinct_nontrivial = files with >= 2 blocks at some non-root index level"),
     );
     rep.set("bound", json!("closure (no depth bound) on every listed file"));
     rep.assume("the cursor's future behaviour is a function of the fingerprinted fields (per level recorded offset, loaded block bytes, in-block position; data block bytes and position) — every block load is preceded by an absolute seek, so the source position is irrelevant");
-    rep.assume("relative moves and current() after an operation returned None are unspecified: only required not to panic or error");
+    rep.assume("relative moves and current() after an operation returned None are unspecified: any outcome (an entry, None, an error, a panic) is accepted; if such a move returns a stored entry it is an operation that returned an entry and establishes the position for what follows");
+    rep.assume("'closed' means closed under the hook fingerprint: that the fingerprint holds all state the future depends on is an assumption about the code, which the second and third engines do not need");
     rep.finish()
 }
 
 pub fn replay(case: &serde_json::Value) -> i32 {
     let spec: FileSpec = serde_json::from_value(case["file"].clone()).expect("bad replay: file");
     let ops: Vec<Op> = serde_json::from_value(case["ops"].clone()).expect("bad replay: ops");
-    match replay_history(&spec, &ops, "C03") {
+    match crate::cursor_bfs::replay_history_opt(&spec, &ops, "C03", case["single_cursor"].as_bool().unwrap_or(false)) {
         Ok(log) => {
             println!("{log}replay: history conforms to the model");
             0
